@@ -108,6 +108,19 @@ func init() {
 		"time.Now":   timeNow,
 		"time.Since": timeSince,
 		"time.Sleep": func(fr *frame, a []value) value { fr.i.sched.yield("time.Sleep"); return nil },
+		"time.NewTicker":       timeNewTicker,
+		"(*time.Ticker).Stop":  func(fr *frame, a []value) value { tickerOf(fr, a[0]).stop = true; return nil },
+		"(*time.Ticker).Reset": func(fr *frame, a []value) value { tickerOf(fr, a[0]).stop = false; return nil },
+		"time.After":           func(fr *frame, a []value) value { return fr.i.newTicker(true).c },
+		"time.NewTimer": func(fr *frame, a []value) value {
+			tm := fr.i.newTicker(true)
+			var cell value = structure{tm.c, true}
+			p := &cell
+			fr.i.side[p] = &tickerSide{tm}
+			return p
+		},
+		"(*time.Timer).Stop":  func(fr *frame, a []value) value { tm := tickerOf(fr, a[0]); was := !tm.stop && tm.fires == 0; tm.stop = true; return was },
+		"(*time.Timer).Reset": func(fr *frame, a []value) value { tm := tickerOf(fr, a[0]); was := !tm.stop && tm.fires == 0; tm.stop = false; return was },
 	} {
 		externals[k] = v
 	}
@@ -502,6 +515,31 @@ func timeNow(fr *frame, a []value) value {
 	ns := fr.i.clock
 	sec += ns / 1e9
 	return structure{uint64(ns % 1e9), sec, (*value)(nil)}
+}
+
+func (i *interpreter) timeValue() value {
+	i.clock += 1000
+	const unixToInternal = (1969*365 + 1969/4 - 1969/100 + 1969/400) * 86400
+	ns := i.clock
+	return structure{uint64(ns % 1e9), int64(1_700_000_000) + unixToInternal + ns/1e9, (*value)(nil)}
+}
+
+type tickerSide struct{ tm *timerObj }
+
+func timeNewTicker(fr *frame, a []value) value {
+	tm := fr.i.newTicker(false)
+	var cell value = structure{tm.c, true}
+	p := &cell
+	fr.i.side[p] = &tickerSide{tm}
+	return p
+}
+
+func tickerOf(fr *frame, recv value) *timerObj {
+	p := fr.nilCheck(recv.(*value))
+	if st, ok := fr.i.side[p]; ok {
+		return st.(*tickerSide).tm
+	}
+	panic(unsupported("time.Ticker/Timer not created by the engine's model"))
 }
 
 func timeSince(fr *frame, a []value) value {
